@@ -911,6 +911,13 @@ pub fn apply(m: &mut Module, st: &mut EditState, e: &Edit) -> (bool, String) {
             }
             (true, String::new())
         }
+        Edit::AddRootSection { pick } => {
+            let n = m.funcs.iter().count();
+            let Some(id) = nth(m.funcs.iter().map(|f| f.id()), *pick, n) else { return (false, "no function".into()) };
+            st.counter += 1;
+            m.customs.add(super::RootSec { name: format!("dst.root.{}", st.counter), func: id });
+            (true, String::new())
+        }
         Edit::RenameFunc { pick, name } => {
             let n = m.funcs.iter().count();
             let Some(id) = nth(m.funcs.iter().map(|f| f.id()), *pick, n) else { return (false, "no function".into()) };
